@@ -510,13 +510,14 @@ class time_limit:  # pylint: disable=invalid-name
     def _fire(self, _signum, _frame):
         raise ParseTimeout()
 
+    # (processor time of this process, not wall time: a parser that loops burns it, a loaded machine does not)
     def __enter__(self):
-        self.previous = signal.signal(signal.SIGALRM, self._fire)
-        signal.setitimer(signal.ITIMER_REAL, self.seconds)
+        self.previous = signal.signal(signal.SIGVTALRM, self._fire)
+        signal.setitimer(signal.ITIMER_VIRTUAL, self.seconds)
 
     def __exit__(self, *_exc):
-        signal.setitimer(signal.ITIMER_REAL, 0)
-        signal.signal(signal.SIGALRM, self.previous)
+        signal.setitimer(signal.ITIMER_VIRTUAL, 0)
+        signal.signal(signal.SIGVTALRM, self.previous)
         return False
 
 
